@@ -194,7 +194,7 @@ CHECKS["C12"] = cfg(
     "C12", exhaustive=True,
     technique="runtime monitoring: bit-vector reference model; exhaustive (byte value x bit offset x written value) single-write table; random write histories; independent gzip/base64 codec; credential-level and validator oracles",
     level_text="Every (byte value, offset, written value) single write at several byte positions, random 200-operation histories over every size class and credential-level scenarios for both purposes are executed on the real StatusList2021 / StatusList2021Credential and compared with a harness bit-vector: read = last write, no other entry changes (checked through get, a full sweep and the independently decoded encodedList), out-of-range => Err never panic, encode/decode identity, one-way revocation vs reversible suspension, and the validator's verdict.",
-    min={"quick": {"table_cases": 12000, "set_false_with_set_neighbours": 5000, "oob_probes": 2000, "roundtrip_identical": 12000, "list_credentials": 150,
+    min={"quick": {"huge_lists": 60, "huge_set_ok": 2000, "huge_set_ok_index_ge_2p32": 300, "huge_related_entries_read": 60000, "table_cases": 12000, "set_false_with_set_neighbours": 5000, "oob_probes": 2000, "roundtrip_identical": 12000, "list_credentials": 150,
                    "cred_writes_ok": 600, "cred_unrevoke_attempts": 80, "cred_unsuspend_ok": 80, "status_matching": 300, "status_revoked": 100, "status_suspended": 100,
                    "status_oob": 5, "nontrivial": 12300},
          "thorough": {"table_cases": 40000, "set_false_with_set_neighbours": 100000, "oob_probes": 50000, "status_matching": 9000, "nontrivial": 41000}},
